@@ -973,6 +973,10 @@ fn c18(c: &mut Ctx) {
 }
 
 fn c19(c: &mut Ctx) {
+    // index constructors that guard the table indices (square, piece, cell, colour, castling rights)
+    for t in ["file", "rank", "coord", "piece", "cell", "color", "rights"] {
+        c.case(&format!("conv {}", t), &format!("conv {}", t));
+    }
     let mut ps = posgen::f3h(&mut c.rng, c.thorough);
     let n = c.vol(2000, 50.0);
     for _ in 0..n {
